@@ -213,6 +213,7 @@ def LARGE(arr, n):
     n = utils.parse_number(n)
     if isinstance(n, error.XLError):
         return n
-    if n < 1 or n > len(arr):
+    numbers = sorted(utils.inumbers(arr, try_parse=True, text_is_zero=True))
+    if n < 1 or n > len(numbers):
         return error.NUM
-    return sorted(utils.inumbers(arr, try_parse=True, text_is_zero=True))[-n]
+    return numbers[-n]
